@@ -215,3 +215,31 @@ func siteTargetMatches(name, target string) bool {
 	}
 	return name == target || strings.HasSuffix(name, "."+target) || strings.HasSuffix(name, ")."+target)
 }
+
+// names of locals defined before a loop (DebugRef in a block that strictly dominates the header):
+// such SSA values do not change inside the loop, so invariants may mention them by source name
+func (f *Frame) bindNamesBefore(env *SpecEnv, header *ssa.BasicBlock) {
+	for _, b := range rpo(f.fn) {
+		if b == header || !b.Dominates(header) {
+			continue
+		}
+		for _, ins := range b.Instrs {
+			d, ok := ins.(*ssa.DebugRef)
+			if !ok || d.IsAddr {
+				continue
+			}
+			id, ok := d.Expr.(*ast.Ident)
+			if !ok {
+				continue
+			}
+			v, done := f.vals[d.X]
+			if !done {
+				continue
+			}
+			if _, taken := env.vars[id.Name]; taken {
+				continue
+			}
+			env.vars[id.Name] = v
+		}
+	}
+}
